@@ -896,3 +896,631 @@ Proof.
   - lia.
 Qed.
 End ZListMore.
+
+(* ------------------------------------------------------------------------------------ *)
+(* derived operations at the specification level: composites = closed formulas            *)
+(* ------------------------------------------------------------------------------------ *)
+Section QsAlg.
+Variable A : Type.
+Implicit Types s : qs A.
+
+Lemma reset_facts : forall s, qs_wf s ->
+  let s1 := qs_reset_if_empty s in
+  q_q s1 = q_q s /\ zlen (q_fr s1) = zlen (q_fr s) /\ qs_wf s1 /\ (qs_len s = 0 -> q_pos s1 = 0).
+Proof.
+  intros s Hwf. unfold qs_reset_if_empty. destruct (Z.eqb_spec (qs_len s) 0).
+  - cbn [q_q q_fr q_pos]. rewrite zlen_rotl. split; [|split; [|split]]; auto.
+    unfold qs_wf, qs_cap in *. cbn [q_q q_fr q_pos]. rewrite ?zlen_rotl. lia.
+  - split; [|split; [|split]]; auto. lia.
+Qed.
+
+Lemma reset_idem : forall s, qs_len s = 0 -> q_pos s = 0 -> qs_reset_if_empty s = s.
+Proof.
+  intros [q fr pos] Hl Hp. unfold qs_reset_if_empty, qs_len, qs_cap in *. cbn [q_q q_fr q_pos] in *.
+  subst pos. rewrite Hl. simpl. rewrite Z.sub_0_r, Z.add_0_l, rotl_all. reflexivity.
+Qed.
+
+Lemma cw_range : forall s, qs_wf s -> 0 <= qs_contiguous_window s <= qs_window s.
+Proof.
+  intros s Hwf. unfold qs_contiguous_window.
+  change (qs_idx s (qs_len s)) with (pidx (qs_cap s) (q_pos s) (qs_len s)).
+  unfold qs_window, qs_wf, qs_cap, qs_len in *.
+  pose proof (zlen_nonneg (q_q s)). pose proof (zlen_nonneg (q_fr s)).
+  pose proof (@pidx_range (zlen (q_q s) + zlen (q_fr s)) (q_pos s) (zlen (q_q s))). lia.
+Qed.
+
+Lemma qsc_enqueue_many : forall s size w, 0 <= size -> qs_wf s ->
+  (do x <- qs_enqueue_many_with s (fun buf =>
+            let size := Z.min size (zlen buf) in
+            let ret := slice buf 0 size in
+            Ok (overlay w ret ++ skipn (Z.to_nat size) buf, size, ret));
+   let '(s', (_, ret)) := x in Ok (s', ret)) = qs_enqueue_many s size w.
+Proof.
+  intros s size w Hsz Hwf. unfold qs_enqueue_many_with, qs_enqueue_many.
+  destruct (reset_facts Hwf) as (Hq1 & Hfr1 & Hwf1 & _).
+  set (s1 := qs_reset_if_empty s) in *. pose proof (cw_range Hwf1) as Hm.
+  set (m := qs_contiguous_window s1) in *. unfold qs_window in Hm.
+  set (old := firstn (Z.to_nat m) (q_fr s1)).
+  assert (Hzo : zlen old = m) by (apply zlen_firstn; lia).
+  cbn [obind]. cbv zeta. rewrite Hzo. set (n := Z.min size m).
+  destruct (Z.ltb_spec m n); [lia|].
+  assert (Hret : slice old 0 n = firstn (Z.to_nat n) (q_fr s1)).
+  { rewrite slice_0. unfold old. apply firstn_firstn_z. lia. }
+  rewrite Hret. set (ret := firstn (Z.to_nat n) (q_fr s1)).
+  assert (Hzr : zlen ret = n) by (apply zlen_firstn; lia).
+  assert (Hzov : zlen (overlay w ret) = n) by (rewrite zlen_overlay; auto).
+  rewrite overlay_same.
+  2:{ rewrite app_length, skipn_length. unfold zlen in *. lia. }
+  rewrite firstn_app_len, skipn_app_len by auto.
+  unfold old. rewrite skipn_firstn_app_z by lia. reflexivity.
+Qed.
+
+Lemma qsc_dequeue_many : forall s size, 0 <= size -> qs_wf s ->
+  (do x <- qs_dequeue_many_with s (fun buf =>
+            let size := Z.min size (zlen buf) in Ok (size, slice buf 0 size));
+   let '(s', (_, ret)) := x in Ok (s', ret)) = qs_dequeue_many s size.
+Proof.
+  intros s size Hsz Hwf. unfold qs_dequeue_many_with, qs_dequeue_many, qs_dequeue_n.
+  unfold qs_wf, qs_cap, qs_len in *.
+  pose proof (zlen_nonneg (q_q s)). pose proof (zlen_nonneg (q_fr s)).
+  set (m := Z.min (zlen (q_q s)) (zlen (q_q s) + zlen (q_fr s) - q_pos s)).
+  assert (Hm : 0 <= m <= zlen (q_q s)) by lia.
+  cbn [obind]. cbv zeta. rewrite zlen_firstn by lia. set (n := Z.min size m).
+  destruct (Z.ltb_spec m n); [lia|].
+  rewrite slice_0, firstn_firstn_z by lia. reflexivity.
+Qed.
+Lemma overlay_long : forall (w old : list A), (length old <= length w)%nat ->
+  overlay w old = firstn (length old) w.
+Proof. intros. unfold overlay. rewrite skipn_all2 by lia. apply app_nil_r. Qed.
+
+Lemma pidx_pidx : forall c pos a b, 0 <= pos < Z.max 1 c -> 0 <= a -> 0 <= b -> a + b <= c ->
+  pidx c (pidx c pos a) b = pidx c pos (a + b).
+Proof.
+  intros. unfold pidx, wrap. destruct (Z.ltb_spec 0 c); auto.
+  destruct (Z.leb_spec c (pos + a)); destruct (Z.leb_spec c (pos + (a + b)));
+    match goal with |- context [?x <=? ?y] => destruct (Z.leb_spec x y) end; lia.
+Qed.
+
+Lemma pidx_0_wf : forall c pos, 0 <= pos < Z.max 1 c -> pidx c pos 0 = pos.
+Proof.
+  intros. unfold pidx, wrap. destruct (Z.ltb_spec 0 c); [|lia].
+  destruct (Z.leb_spec c (pos + 0)); lia.
+Qed.
+
+(* one greedy enqueue step: as many elements of [data] as fit contiguously *)
+Lemma greedy_enqueue : forall T s (data : list A) (res : Z -> T), qs_wf s ->
+  qs_enqueue_many_with s (fun buf =>
+      let size := Z.min (zlen buf) (zlen data) in
+      Ok (overlay (firstn (Z.to_nat size) data) buf, size, res size))
+  = let s1 := qs_reset_if_empty s in
+    let n := Z.min (qs_contiguous_window s1) (zlen data) in
+    Ok (mkQs (q_q s1 ++ firstn (Z.to_nat n) data) (skipn (Z.to_nat n) (q_fr s1)) (q_pos s1),
+        (n, res n)).
+Proof.
+  intros T s data res Hwf. unfold qs_enqueue_many_with.
+  destruct (reset_facts Hwf) as (Hq1 & Hfr1 & Hwf1 & _).
+  set (s1 := qs_reset_if_empty s) in *. pose proof (cw_range Hwf1) as Hm.
+  set (m := qs_contiguous_window s1) in *. unfold qs_window in Hm.
+  set (old := firstn (Z.to_nat m) (q_fr s1)).
+  assert (Hzo : zlen old = m) by (apply zlen_firstn; lia).
+  pose proof (zlen_nonneg data).
+  cbn [obind]. cbv zeta. rewrite Hzo. set (n := Z.min m (zlen data)).
+  destruct (Z.ltb_spec m n); [lia|].
+  assert (Hzd : zlen (firstn (Z.to_nat n) data) = n) by (apply zlen_firstn; lia).
+  rewrite (overlay_short (firstn (Z.to_nat n) data) old) by (unfold zlen in *; lia).
+  replace (length (firstn (Z.to_nat n) data)) with (Z.to_nat n) by (unfold zlen in *; lia).
+  rewrite overlay_same.
+  2:{ rewrite app_length, skipn_length. unfold zlen in *. lia. }
+  rewrite firstn_app_len, skipn_app_len by auto.
+  unfold old. rewrite skipn_firstn_app_z by lia. reflexivity.
+Qed.
+
+Lemma qsc_enqueue_slice : forall s (data : list A), qs_wf s ->
+  (do x1 <- qs_enqueue_many_with s (fun buf =>
+            let size := Z.min (zlen buf) (zlen data) in
+            Ok (overlay (firstn (Z.to_nat size) data) buf, size, skipn (Z.to_nat size) data));
+   let '(s1, (size_1, data1)) := x1 in
+   do x2 <- qs_enqueue_many_with s1 (fun buf =>
+            let size := Z.min (zlen buf) (zlen data1) in
+            Ok (overlay (firstn (Z.to_nat size) data1) buf, size, tt));
+   let '(s2, (size_2, _)) := x2 in
+   Ok (s2, size_1 + size_2)) = qs_enqueue_slice s data.
+Proof.
+  intros s data Hwf.
+  rewrite (greedy_enqueue data (fun size => skipn (Z.to_nat size) data) Hwf).
+  destruct (reset_facts Hwf) as (Hq1 & Hfr1 & Hwf1 & Hp1).
+  unfold qs_enqueue_slice.
+  set (s1 := qs_reset_if_empty s) in *. pose proof (cw_range Hwf1) as Hm.
+  cbv zeta. cbn [obind].
+  set (n1 := Z.min (qs_contiguous_window s1) (zlen data)).
+  pose proof (zlen_nonneg data). pose proof (zlen_nonneg (q_q s1)). pose proof (zlen_nonneg (q_fr s1)).
+  unfold qs_window in *.
+  assert (Hn1 : 0 <= n1 <= zlen (q_fr s1)) by lia.
+  set (sA := mkQs (q_q s1 ++ firstn (Z.to_nat n1) data) (skipn (Z.to_nat n1) (q_fr s1)) (q_pos s1)).
+  assert (HcapA : qs_cap sA = qs_cap s1).
+  { unfold qs_cap, sA. cbn [q_q q_fr]. rewrite zlen_app, zlen_firstn, zlen_skipn by lia. lia. }
+  assert (HwfA : qs_wf sA) by (unfold qs_wf in *; rewrite HcapA; exact Hwf1).
+  pose proof (greedy_enqueue (skipn (Z.to_nat n1) data) (fun _ => tt) HwfA) as G.
+  cbv zeta in G. rewrite G. clear G.
+  assert (HresetA : qs_reset_if_empty sA = sA).
+  { destruct (Z.eq_dec (qs_len sA) 0) as [E|E];
+      [|unfold qs_reset_if_empty; destruct (Z.eqb_spec (qs_len sA) 0); [lia|reflexivity]].
+    apply reset_idem; auto. unfold sA; cbn [q_pos].
+    apply Hp1. unfold qs_len, sA in *. cbn [q_q] in E. rewrite zlen_app in E.
+    rewrite zlen_firstn in E by lia. rewrite <- Hq1. unfold qs_len. lia. }
+  cbv zeta. rewrite HresetA. cbn [obind].
+  set (n2 := Z.min (qs_contiguous_window sA) (zlen (skipn (Z.to_nat n1) data))).
+  assert (Harith : n1 + n2 = Z.min (zlen data) (zlen (q_fr s1)) /\ 0 <= n2).
+  { pose proof (@two_piece (qs_cap s1) (q_pos s1) (zlen (q_q s1)) (zlen (q_fr s1)) (zlen data)) as T.
+    cbv zeta in T.
+    assert (E1 : n1 = Z.min (Z.min (zlen data) (zlen (q_fr s1)))
+                        (qs_cap s1 - pidx (qs_cap s1) (q_pos s1) (zlen (q_q s1)))).
+    { unfold n1, qs_contiguous_window, qs_window, qs_len.
+      change (qs_idx s1 (zlen (q_q s1))) with (pidx (qs_cap s1) (q_pos s1) (zlen (q_q s1))). lia. }
+    assert (E2 : n2 = Z.min (Z.min (zlen data - n1) (zlen (q_fr s1) - n1))
+                        (qs_cap s1 - pidx (qs_cap s1) (q_pos s1) (zlen (q_q s1) + n1))).
+    { unfold n2, qs_contiguous_window, qs_window, qs_len.
+      change (qs_idx sA (zlen (q_q sA))) with (pidx (qs_cap sA) (q_pos sA) (zlen (q_q sA))).
+      rewrite HcapA. unfold sA. cbn [q_q q_fr q_pos].
+      rewrite zlen_app, zlen_firstn, !zlen_skipn by lia. lia. }
+    rewrite <- E1 in T. rewrite <- E2 in T. unfold qs_wf, qs_cap in *.
+    destruct T; try lia. }
+  destruct Harith as (Hsum & Hn2).
+  unfold sA. cbn [q_q q_fr q_pos]. rewrite <- Hsum.
+  rewrite <- app_assoc, firstn_add_z, skipn_skipn_z by lia. reflexivity.
+Qed.
+
+Lemma greedy_dequeue : forall s n, 0 <= n -> qs_wf s ->
+  qs_dequeue_many_with s (fun buf =>
+      let size := Z.min (zlen buf) n in Ok (size, slice buf 0 size))
+  = let k := Z.min (Z.min (qs_len s) (qs_cap s - q_pos s)) n in
+    Ok (qs_dequeue_n s k, (k, firstn (Z.to_nat k) (q_q s))).
+Proof.
+  intros s n Hn Hwf. unfold qs_dequeue_many_with, qs_dequeue_n.
+  unfold qs_wf, qs_cap, qs_len in *.
+  pose proof (zlen_nonneg (q_q s)). pose proof (zlen_nonneg (q_fr s)).
+  set (m := Z.min (zlen (q_q s)) (zlen (q_q s) + zlen (q_fr s) - q_pos s)).
+  assert (Hm : 0 <= m <= zlen (q_q s)) by lia.
+  cbn [obind]. cbv zeta. rewrite zlen_firstn by lia. set (k := Z.min m n).
+  destruct (Z.ltb_spec m k); [lia|].
+  rewrite slice_0, firstn_firstn_z by lia. reflexivity.
+Qed.
+
+Lemma qsc_dequeue_slice : forall s n, 0 <= n -> qs_wf s ->
+  (do x1 <- qs_dequeue_many_with s (fun buf =>
+            let size := Z.min (zlen buf) n in Ok (size, slice buf 0 size));
+   let '(s1, (size_1, d1)) := x1 in
+   do x2 <- qs_dequeue_many_with s1 (fun buf =>
+            let size := Z.min (zlen buf) (n - size_1) in Ok (size, slice buf 0 size));
+   let '(s2, (size_2, d2)) := x2 in
+   Ok (s2, (size_1 + size_2, d1 ++ d2))) = qs_dequeue_slice s n.
+Proof.
+  intros s n Hn Hwf. rewrite (greedy_dequeue Hn Hwf). cbv zeta. cbn [obind].
+  pose proof (zlen_nonneg (q_q s)). pose proof (zlen_nonneg (q_fr s)).
+  pose proof Hwf as Hwf'. unfold qs_wf, qs_cap in Hwf'.
+  set (k1 := Z.min (Z.min (qs_len s) (qs_cap s - q_pos s)) n).
+  assert (Hk1 : 0 <= k1 <= zlen (q_q s)) by (unfold k1, qs_len, qs_cap; lia).
+  set (sA := qs_dequeue_n s k1).
+  assert (HcapA : qs_cap sA = qs_cap s).
+  { unfold qs_cap, sA, qs_dequeue_n. cbn [q_q q_fr].
+    rewrite zlen_app, zlen_firstn, zlen_skipn by lia. lia. }
+  assert (HposA : q_pos sA = pidx (qs_cap s) (q_pos s) k1) by reflexivity.
+  assert (HwfA : qs_wf sA).
+  { unfold qs_wf. rewrite HcapA, HposA. apply pidx_range; unfold qs_cap; lia. }
+  pose proof (@greedy_dequeue sA (n - k1) ltac:(lia) HwfA) as G.
+  cbv zeta in G. rewrite G. clear G. cbn [obind].
+  set (k2 := Z.min (Z.min (qs_len sA) (qs_cap sA - q_pos sA)) (n - k1)).
+  assert (HlenA : qs_len sA = qs_len s - k1).
+  { unfold qs_len, sA, qs_dequeue_n. cbn [q_q]. rewrite zlen_skipn by lia. lia. }
+  assert (Harith : k1 + k2 = Z.min n (qs_len s) /\ 0 <= k2).
+  { pose proof (@two_piece (qs_cap s) (q_pos s) 0 (qs_len s) n) as T. cbv zeta in T.
+    rewrite pidx_0_wf in T by (unfold qs_cap; lia). rewrite !Z.add_0_l in T.
+    assert (E1 : k1 = Z.min (Z.min n (qs_len s)) (qs_cap s - q_pos s)) by (unfold k1; lia).
+    assert (E2 : k2 = Z.min (Z.min (n - k1) (qs_len s - k1))
+                        (qs_cap s - pidx (qs_cap s) (q_pos s) k1)).
+    { unfold k2. rewrite HcapA, HposA, HlenA. lia. }
+    rewrite <- E1 in T. rewrite <- E2 in T. unfold qs_len, qs_cap in *. destruct T; lia. }
+  destruct Harith as (Hsum & Hk2).
+  unfold qs_dequeue_slice. rewrite <- Hsum.
+  assert (Hk2' : k2 <= zlen (q_q s) - k1) by (unfold qs_len in *; lia).
+  unfold qs_dequeue_n at 1. unfold sA at 1 2 3 4. unfold qs_dequeue_n at 1 2 3. cbn [q_q q_fr q_pos].
+  rewrite skipn_skipn_z, <- app_assoc, firstn_add_z by lia.
+  change (qs_idx (qs_dequeue_n s k1) k2) with (pidx (qs_cap sA) (q_pos sA) k2).
+  rewrite HcapA, HposA, pidx_pidx by (unfold qs_cap; lia).
+  unfold sA, qs_dequeue_n. cbn [q_q]. rewrite firstn_add_z by lia. reflexivity.
+Qed.
+Lemma qs_eta : forall s, mkQs (q_q s) (q_fr s) (q_pos s) = s.
+Proof. destruct s; reflexivity. Qed.
+
+(* one get_unallocated whose slice is completely overwritten with the head of [data] *)
+Lemma get_unallocated_write : forall s offset (data : list A), 0 <= offset -> qs_wf s ->
+  qs_get_unallocated s offset (zlen data) data =
+  let n := if qs_window s <? offset then 0
+           else Z.min (Z.min (zlen data) (qs_window s - offset))
+                      (qs_cap s - pidx (qs_cap s) (q_pos s) (qs_len s + offset)) in
+  let off := if qs_window s <? offset then 0 else offset in
+  Ok (mkQs (q_q s) (put (q_fr s) off (firstn (Z.to_nat n) data)) (q_pos s), slice (q_fr s) off n).
+Proof.
+  intros s offset data Ho Hwf. unfold qs_get_unallocated. cbv zeta.
+  change (qs_idx s (qs_len s + offset)) with (pidx (qs_cap s) (q_pos s) (qs_len s + offset)).
+  pose proof (zlen_nonneg data). pose proof (zlen_nonneg (q_q s)). pose proof (zlen_nonneg (q_fr s)).
+  unfold qs_window, qs_wf, qs_cap, qs_len in *.
+  destruct (Z.ltb_spec (zlen (q_fr s)) offset).
+  - rewrite slice_len0, overlay_nil. reflexivity.
+  - pose proof (@pidx_range (zlen (q_q s) + zlen (q_fr s)) (q_pos s) (zlen (q_q s) + offset)
+                  ltac:(lia) ltac:(lia)) as Hp.
+    set (n := Z.min (Z.min (zlen data) (zlen (q_fr s) - offset))
+                    (zlen (q_q s) + zlen (q_fr s) - pidx (zlen (q_q s) + zlen (q_fr s)) (q_pos s) (zlen (q_q s) + offset))).
+    assert (Hn : 0 <= n) by lia.
+    assert (Hzs : zlen (slice (q_fr s) offset n) = n) by (apply zlen_slice; lia).
+    rewrite overlay_long by (unfold zlen in *; lia).
+    replace (length (slice (q_fr s) offset n)) with (Z.to_nat n) by (unfold zlen in *; lia).
+    reflexivity.
+Qed.
+
+Lemma qsc_write_unallocated : forall s offset (data : list A), 0 <= offset -> qs_wf s ->
+  (do x1 <- qs_get_unallocated s offset (zlen data) data;
+   let '(s1, old1) := x1 in
+   let size_1 := zlen old1 in
+   let offset := offset + size_1 in
+   let data := skipn (Z.to_nat size_1) data in
+   do x2 <- qs_get_unallocated s1 offset (zlen data) data;
+   let '(s2, old2) := x2 in
+   Ok (s2, size_1 + zlen old2)) = qs_write_unallocated s offset data.
+Proof.
+  intros s offset data Ho Hwf. rewrite (get_unallocated_write data Ho Hwf). cbv zeta. cbn [obind].
+  unfold qs_write_unallocated.
+  pose proof (zlen_nonneg data). pose proof (zlen_nonneg (q_q s)). pose proof (zlen_nonneg (q_fr s)).
+  pose proof Hwf as Hwf'. unfold qs_wf, qs_cap in Hwf'.
+  destruct (Z.ltb_spec (qs_window s) offset) as [Hlt|Hge].
+  - (* offset beyond the window: both calls hand out the empty slice *)
+    rewrite slice_len0. change (zlen (@nil A)) with 0. rewrite Z.add_0_r.
+    change (Z.to_nat 0) with 0%nat. cbn [skipn firstn]. rewrite put_nil_0, qs_eta.
+    pose proof (get_unallocated_write data Ho Hwf) as G. cbv zeta in G. rewrite G. clear G.
+    destruct (Z.ltb_spec (qs_window s) offset); [|lia]. cbn [obind].
+    change (Z.to_nat 0) with 0%nat. cbn [firstn]. rewrite slice_len0, put_nil_0, qs_eta. reflexivity.
+  - unfold qs_window in *.
+    set (c := qs_cap s) in *. set (len := qs_len s) in *. set (w := zlen (q_fr s)) in *.
+    set (n1 := Z.min (Z.min (zlen data) (w - offset)) (c - pidx c (q_pos s) (len + offset))).
+    pose proof (@pidx_range c (q_pos s) (len + offset) ltac:(unfold c, qs_cap; lia)
+                  ltac:(unfold c, len, w, qs_cap, qs_len in *; lia)) as Hp.
+    assert (Hn1 : 0 <= n1 <= w - offset) by (unfold c, qs_cap in *; lia).
+    rewrite zlen_slice by (fold w; lia).
+    set (sA := mkQs (q_q s) (put (q_fr s) offset (firstn (Z.to_nat n1) data)) (q_pos s)).
+    assert (Hzd1 : zlen (firstn (Z.to_nat n1) data) = n1) by (apply zlen_firstn; lia).
+    assert (HfrA : zlen (q_fr sA) = w).
+    { unfold sA. cbn [q_fr]. rewrite zlen_put by (fold w; lia). reflexivity. }
+    assert (HcapA : qs_cap sA = c) by (unfold qs_cap in *; rewrite HfrA; reflexivity).
+    assert (HwfA : qs_wf sA) by (unfold qs_wf; rewrite HcapA; exact Hwf).
+    pose proof (@get_unallocated_write sA (offset + n1) (skipn (Z.to_nat n1) data)
+                  ltac:(lia) HwfA) as G.
+    cbv zeta in G. rewrite G. clear G. unfold qs_window. rewrite HfrA, HcapA.
+    destruct (Z.ltb_spec w (offset + n1)); [lia|]. cbn [obind].
+    change (qs_len sA) with len. change (q_pos sA) with (q_pos s).
+    rewrite zlen_skipn by lia.
+    set (n2 := Z.min (Z.min (zlen data - n1) (w - (offset + n1)))
+                     (c - pidx c (q_pos s) (len + (offset + n1)))).
+    pose proof (@two_piece c (q_pos s) (len + offset) (w - offset) (zlen data)) as T. cbv zeta in T.
+    fold n1 in T. replace (w - offset - n1) with (w - (offset + n1)) in T by lia.
+    replace (len + offset + n1) with (len + (offset + n1)) in T by lia. fold n2 in T.
+    destruct T as (Hsum & _ & Hn2); try (unfold c, len, w, qs_cap, qs_len in *; lia).
+    rewrite zlen_slice by (rewrite ?HfrA; lia).
+    unfold sA. cbn [q_q q_fr q_pos].
+    rewrite <- Hsum. f_equal. f_equal. f_equal.
+    rewrite <- Hzd1 at 2. rewrite put_put.
+    + rewrite firstn_add_z by lia. reflexivity.
+    + lia.
+    + rewrite Hzd1, zlen_firstn by (rewrite zlen_skipn by lia; lia). fold w. lia.
+Qed.
+
+Lemma qsc_read_allocated : forall s offset n, 0 <= offset -> 0 <= n -> qs_wf s ->
+  (do s1 <- qs_get_allocated s offset n;
+   let offset := offset + zlen s1 in
+   do s2 <- qs_get_allocated s offset (n - zlen s1);
+   Ok (zlen s1 + zlen s2, s1 ++ s2)) = qs_read_allocated s offset n.
+Proof.
+  intros s offset n Ho Hn Hwf. unfold qs_get_allocated, qs_read_allocated.
+  pose proof (zlen_nonneg (q_q s)). pose proof (zlen_nonneg (q_fr s)).
+  pose proof Hwf as Hwf'. unfold qs_wf, qs_cap in Hwf'.
+  destruct (Z.ltb_spec (qs_len s) offset) as [Hlt|Hge].
+  - cbn [obind]. change (zlen (@nil A)) with 0. rewrite Z.add_0_r.
+    destruct (Z.ltb_spec (qs_len s) offset); [|lia]. reflexivity.
+  - cbn [obind].
+    change (qs_idx s offset) with (pidx (qs_cap s) (q_pos s) offset).
+    set (c := qs_cap s) in *. set (len := qs_len s) in *.
+    set (n1 := Z.min (Z.min n (len - offset)) (c - pidx c (q_pos s) offset)).
+    pose proof (@pidx_range c (q_pos s) offset ltac:(unfold c, qs_cap; lia)
+                  ltac:(unfold c, len, qs_cap, qs_len in *; lia)) as Hp.
+    assert (Hn1 : 0 <= n1 <= len - offset) by (unfold c, qs_cap in *; lia).
+    rewrite zlen_slice by (unfold len, qs_len in *; lia).
+    destruct (Z.ltb_spec len (offset + n1)); [lia|]. cbn [obind].
+    change (qs_idx s (offset + n1)) with (pidx c (q_pos s) (offset + n1)).
+    set (n2 := Z.min (Z.min (n - n1) (len - (offset + n1))) (c - pidx c (q_pos s) (offset + n1))).
+    pose proof (@two_piece c (q_pos s) offset (len - offset) n) as T. cbv zeta in T.
+    fold n1 in T. replace (len - offset - n1) with (len - (offset + n1)) in T by lia. fold n2 in T.
+    destruct T as (Hsum & _ & Hn2); try (unfold c, len, qs_cap, qs_len in *; lia).
+    rewrite zlen_slice by (unfold len, qs_len in *; lia).
+    rewrite slice_add by lia. rewrite Hsum. reflexivity.
+Qed.
+End QsAlg.
+
+(* ------------------------------------------------------------------------------------ *)
+(* derived operations of the ring, the step function, whole runs                          *)
+(* ------------------------------------------------------------------------------------ *)
+Section RefineDerived.
+Variable A : Type.
+Implicit Types r : ring A.
+Implicit Types s : qs A.
+
+(* the slot after the last element *)
+Lemma enq_slot_facts : forall r q old fr', rep r q (old :: fr') ->
+  let idx := pidx (zlen (r_store r)) (r_read r) (r_len r) in
+  ring_is_full r = false /\ ring_get_idx_unchecked r (r_len r) = Ok idx /\
+  elem_at (r_store r) idx = Ok old /\ 0 <= idx < Z.max 1 (zlen (r_store r)) /\
+  forall new, rotl (r_read r) (put (r_store r) idx [new]) = q ++ new :: fr' /\
+              zlen (put (r_store r) idx [new]) = zlen (r_store r).
+Proof.
+  intros r q old fr' Hrep idx. pose proof (rep_cap Hrep) as Hc. destruct Hrep as (Hi & HL & Hq).
+  pose proof Hi as Hi'. unfold ring_inv in Hi'.
+  pose proof (zlen_nonneg q). rewrite zlen_cons in Hc. pose proof (zlen_nonneg fr').
+  assert (Hfull : ring_is_full r = false).
+  { unfold ring_is_full, ring_window, ring_len.
+    destruct (Z.eqb_spec (ring_capacity r - r_len r) 0); [lia|reflexivity]. }
+  assert (Hgi : ring_get_idx_unchecked r (r_len r) = Ok idx)
+    by (rewrite get_idx_unchecked_pidx by (auto; lia); reflexivity).
+  unfold ring_capacity in *.
+  assert (Hidx : 0 <= idx < Z.max 1 (zlen (r_store r))) by (apply pidx_range; lia).
+  assert (Hs : slice (r_store r) idx 1 = [old]).
+  { unfold idx. rewrite rot_slice by (try fold idx; lia).
+    rewrite HL, <- Hq, <- (Z.add_0_r (zlen q)), slice_app_at by lia. reflexivity. }
+  assert (He : elem_at (r_store r) idx = Ok old).
+  { unfold slice in Hs. destruct (skipn (Z.to_nat idx) (r_store r)) eqn:E; [discriminate|].
+    simpl in Hs. inversion Hs; subst. eapply elem_at_slice; eauto. lia. }
+  split; [|split; [|split; [|split]]]; auto.
+  intro new. split.
+  - unfold idx. rewrite rot_put by (try fold idx; rewrite ?zlen_cons, ?zlen_nil; lia).
+    rewrite HL, <- Hq, <- (Z.add_0_r (zlen q)), put_app_at;
+      [reflexivity|lia|rewrite ?zlen_cons, ?zlen_nil; lia].
+  - apply zlen_put; rewrite ?zlen_cons, ?zlen_nil; lia.
+Qed.
+
+(* enqueue_one hands out a reference to the slot after the last element; reading it gives the
+   stale content, writing through it sets the new last element *)
+Lemma enqueue_one_ref : forall r q fr, rep r q fr ->
+  match ring_enqueue_one r with
+  | Err e => e = E_FULL /\ fr = []
+  | Panic => False
+  | Ok (r1, slot) =>
+      exists old fr', fr = old :: fr' /\ slot = qs_idx (mkQs q fr (r_read r)) (zlen q) /\
+        r_read r1 = r_read r /\
+        ring_ref_read r1 slot = Ok old /\ rep r1 (q ++ [old]) fr' /\
+        forall v, rep (ring_ref_write r1 slot v) (q ++ [v]) fr'
+  end.
+Proof.
+  intros r q fr Hrep. pose proof (rep_cap Hrep) as Hc.
+  destruct fr as [|old fr'].
+  - destruct Hrep as (Hi & HL & Hq). rewrite zlen_nil in Hc.
+    unfold ring_enqueue_one, ring_enqueue_one_with, ring_is_full, ring_window, ring_len.
+    destruct (Z.eqb_spec (ring_capacity r - r_len r) 0); [|lia]. auto.
+  - destruct (enq_slot_facts Hrep) as (Hfull & Hgi & He & Hidx & Hput).
+    pose proof Hrep as (Hi & HL & Hq). pose proof Hi as Hi'. unfold ring_inv, ring_capacity in Hi'.
+    unfold ring_enqueue_one, ring_enqueue_one_with. rewrite Hfull, Hgi. cbn [obind].
+    rewrite He. cbn [obind].
+    set (idx := pidx (zlen (r_store r)) (r_read r) (r_len r)) in *.
+    exists old, fr'. split; [reflexivity|]. split.
+    { rewrite qs_idx_pidx, Hc, Hq. reflexivity. }
+    split; [reflexivity|].
+    destruct (Hput old) as (HL1 & Hz1).
+    (* the ring with the stale value written back, still of length len *)
+    assert (Hrep' : rep (mkRing (put (r_store r) idx [old]) (r_read r) (r_len r)) q (old :: fr')).
+    { apply mk_rep; auto. rewrite Hz1. lia. }
+    destruct (enq_slot_facts Hrep') as (_ & _ & He' & _ & Hput'). cbn [r_store r_read r_len] in *.
+    rewrite Hz1 in He', Hput'. fold idx in He', Hput'.
+    split; [exact He'|]. split.
+    + apply mk_rep.
+      * rewrite Hz1. lia.
+      * rewrite HL1, <- app_assoc. reflexivity.
+      * rewrite zlen_app, zlen_cons, zlen_nil. lia.
+    + intro v. destruct (Hput' v) as (HL2 & Hz2). unfold ring_ref_write. cbn [r_store r_read r_len].
+      apply mk_rep.
+      * rewrite Hz2. lia.
+      * rewrite HL2, <- app_assoc. reflexivity.
+      * rewrite zlen_app, zlen_cons, zlen_nil. lia.
+Qed.
+Ltac cb_nonneg :=
+  let H := fresh in
+  intros ? ? ? ? H || intros ? ? ? H; cbv zeta in H; inversion H; subst;
+  repeat match goal with |- context [zlen ?l] => pose proof (zlen_nonneg l); generalize dependent (zlen l); intros end;
+  lia.
+
+Lemma sim_enqueue_many : forall r size w, 0 <= size -> ring_inv r ->
+  sim (ring_enqueue_many r size w) (qs_enqueue_many (ring_view r) size w).
+Proof.
+  intros r size w Hsz Hi. rewrite <- qsc_enqueue_many by (auto; apply view_wf; auto).
+  unfold ring_enqueue_many. apply sim_bind.
+  - apply sim_enqueue_many_with; auto.
+    intros buf new k res H. cbv zeta in H. inversion H. pose proof (zlen_nonneg buf). lia.
+  - intros r' [a ret] Hi'. cbn [sim]. auto.
+Qed.
+
+Lemma sim_dequeue_many : forall r size, 0 <= size -> ring_inv r ->
+  sim (ring_dequeue_many r size) (qs_dequeue_many (ring_view r) size).
+Proof.
+  intros r size Hsz Hi. rewrite <- qsc_dequeue_many by (auto; apply view_wf; auto).
+  unfold ring_dequeue_many. apply sim_bind.
+  - apply sim_dequeue_many_with; auto.
+    intros buf k res H. cbv zeta in H. inversion H. pose proof (zlen_nonneg buf). lia.
+  - intros r' [a ret] Hi'. cbn [sim]. auto.
+Qed.
+
+Lemma sim_enqueue_slice : forall r data, ring_inv r ->
+  sim (ring_enqueue_slice r data) (qs_enqueue_slice (ring_view r) data).
+Proof.
+  intros r data Hi. rewrite <- qsc_enqueue_slice by (apply view_wf; auto).
+  unfold ring_enqueue_slice. apply sim_bind.
+  - apply sim_enqueue_many_with; auto.
+    intros buf new k res H. cbv zeta in H. inversion H.
+    pose proof (zlen_nonneg buf). pose proof (zlen_nonneg data). lia.
+  - intros r1 [size_1 data1] Hi1. apply sim_bind.
+    + apply sim_enqueue_many_with; auto.
+      intros buf new k res H. cbv zeta in H. inversion H.
+      pose proof (zlen_nonneg buf). pose proof (zlen_nonneg data1). lia.
+    + intros r2 [size_2 u] Hi2. cbn [sim]. auto.
+Qed.
+
+Lemma sim_dequeue_slice : forall r n, 0 <= n -> ring_inv r ->
+  sim (ring_dequeue_slice r n) (qs_dequeue_slice (ring_view r) n).
+Proof.
+  intros r n Hn Hi. rewrite <- qsc_dequeue_slice by (auto; apply view_wf; auto).
+  unfold ring_dequeue_slice.
+  (* the second callback needs 0 <= n - size_1, which holds because size_1 <= n *)
+  set (f1 := fun buf : list A => let size := Z.min (zlen buf) n in Ok (size, slice buf 0 size)).
+  assert (Hcb : cb_nonneg2 f1).
+  { intros buf k res H. unfold f1 in H. cbv zeta in H. inversion H. pose proof (zlen_nonneg buf). lia. }
+  pose proof (sim_dequeue_many_with Hcb Hi) as S1.
+  destruct (ring_dequeue_many_with r f1) as [[r1 [size_1 d1]]| |] eqn:E1; cbn [sim] in S1.
+  - destruct S1 as (Hi1 & S1). rewrite S1. cbn [obind].
+    assert (Hs1 : size_1 <= n).
+    { unfold ring_dequeue_many_with in E1.
+      destruct (negb _); [discriminate|]. unfold f1 in E1. cbv zeta in E1. cbn [obind] in E1.
+      destruct (_ <? _) in E1; [discriminate|]. inversion E1. lia. }
+    apply sim_bind.
+    + apply sim_dequeue_many_with; auto.
+      intros buf k res H. cbv zeta in H. inversion H. pose proof (zlen_nonneg buf). lia.
+    + intros r2 [size_2 d2] Hi2. cbn [sim]. auto.
+  - rewrite S1. reflexivity.
+  - rewrite S1. reflexivity.
+Qed.
+
+Lemma sim_write_unallocated : forall r offset data, 0 <= offset -> ring_inv r ->
+  sim (ring_write_unallocated r offset data) (qs_write_unallocated (ring_view r) offset data).
+Proof.
+  intros r offset data Ho Hi. rewrite <- qsc_write_unallocated by (auto; apply view_wf; auto).
+  unfold ring_write_unallocated. apply sim_bind.
+  - apply sim_get_unallocated; auto. apply zlen_nonneg.
+  - intros r1 old1 Hi1. cbv zeta. apply sim_bind.
+    + apply sim_get_unallocated; auto; [pose proof (zlen_nonneg old1); lia | apply zlen_nonneg].
+    + intros r2 old2 Hi2. cbn [sim]. auto.
+Qed.
+
+Lemma sim_read_allocated : forall r offset n, 0 <= offset -> 0 <= n -> ring_inv r ->
+  ring_read_allocated r offset n = qs_read_allocated (ring_view r) offset n.
+Proof.
+  intros r offset n Ho Hn Hi. rewrite <- qsc_read_allocated by (auto; apply view_wf; auto).
+  unfold ring_read_allocated. rewrite sim_get_allocated by auto.
+  destruct (qs_get_allocated (ring_view r) offset n) as [s1| |] eqn:E; cbn [obind]; auto.
+  cbv zeta.
+  assert (Hz : zlen s1 <= n).
+  { unfold qs_get_allocated in E. destruct (_ <? _) in E.
+    - inversion E. rewrite zlen_nil. lia.
+    - inversion E. unfold zlen, slice. rewrite firstn_length. lia. }
+  rewrite sim_get_allocated; auto; pose proof (zlen_nonneg s1); lia.
+Qed.
+Definition ring_op_ok (op : ring_op A) : Prop :=
+  match op with
+  | ROEnqManyWith _ k => 0 <= k
+  | ROEnqMany size _ => 0 <= size
+  | RODeqManyWith k => 0 <= k
+  | RODeqMany size => 0 <= size
+  | RODeqSlice n => 0 <= n
+  | ROGetUnalloc off size _ => 0 <= off /\ 0 <= size
+  | ROWrUnalloc off _ => 0 <= off
+  | ROEnqUnalloc n => 0 <= n
+  | ROGetAlloc off size => 0 <= off /\ 0 <= size
+  | RORdAlloc off n => 0 <= off /\ 0 <= n
+  | RODeqAlloc n => 0 <= n
+  | _ => True
+  end.
+
+Lemma status_eq : forall r, ring_inv r -> ring_status r = qs_status (ring_view r).
+Proof.
+  intros r Hi. pose proof (view_rep Hi) as Hrep. pose proof (rep_cap Hrep) as Hc.
+  destruct Hrep as (_ & _ & Hq).
+  unfold ring_status, qs_status, ring_is_empty, ring_is_full, qs_is_empty, qs_is_full,
+    ring_contiguous_window, qs_contiguous_window, ring_window, ring_len, qs_window, qs_len.
+  pose proof Hi as Hi'. unfold ring_inv in Hi'.
+  rewrite get_idx_pidx by (auto; lia).
+  change (qs_idx (ring_view r) (zlen (q_q (ring_view r))))
+    with (pidx (qs_cap (ring_view r)) (r_read r) (zlen (q_q (ring_view r)))).
+  unfold qs_cap. rewrite Hc, Hq.
+  replace (zlen (q_fr (ring_view r))) with (ring_capacity r - r_len r) by lia.
+  reflexivity.
+Qed.
+
+Theorem ring_step_refines : forall r op, ring_inv r -> ring_op_ok op ->
+  sim (ring_step r op) (qs_step (ring_view r) op).
+Proof.
+  intros r op Hi Hok. destruct op; cbn [ring_step qs_step ring_op_ok] in *.
+  - (* enqueue_one *)
+    pose proof (enqueue_one_ref (view_rep Hi)) as H. rewrite <- view_eta in H.
+    destruct (ring_enqueue_one r) as [[r1 slot]|e|]; cbn [obind].
+    + destruct H as (old & fr' & Hfr & Hslot & Hrd & Hrr & _ & Hw).
+      rewrite Hrr. cbn [obind]. unfold qs_enqueue_one_with. rewrite Hfr. cbn [obind sim].
+      specialize (Hw (wr w old)). split; [apply Hw|]. rewrite (rep_view Hw).
+      unfold ring_ref_write. cbn [r_read]. rewrite Hrd. reflexivity.
+    + destruct H as (-> & Hfr). unfold qs_enqueue_one_with. rewrite Hfr. reflexivity.
+    + contradiction.
+  - (* enqueue_one_with *)
+    apply sim_bind; [apply sim_enqueue_one_with; auto|].
+    intros r1 old Hi1. cbn [sim]. auto.
+  - (* dequeue_one *)
+    apply sim_bind; [apply sim_dequeue_one_with; auto|].
+    intros r1 [i v] Hi1. cbn [sim]. auto.
+  - apply sim_bind; [apply sim_dequeue_one_with; auto|].
+    intros r1 v Hi1. cbn [sim]. auto.
+  - (* enqueue_many_with *)
+    apply sim_bind.
+    + apply sim_enqueue_many_with; auto. intros buf new k0 res H. inversion H. subst. auto.
+    + intros r1 [size buf] Hi1. cbn [sim]. auto.
+  - apply sim_bind; [apply sim_enqueue_many; auto|].
+    intros r1 old Hi1. cbn [sim]. auto.
+  - apply sim_bind; [apply sim_enqueue_slice; auto|].
+    intros r1 n Hi1. cbn [sim]. auto.
+  - apply sim_bind.
+    + apply sim_dequeue_many_with; auto. intros buf k0 res H. inversion H. subst. auto.
+    + intros r1 [size buf] Hi1. cbn [sim]. auto.
+  - apply sim_bind; [apply sim_dequeue_many; auto|].
+    intros r1 buf Hi1. cbn [sim]. auto.
+  - apply sim_bind; [apply sim_dequeue_slice; auto|].
+    intros r1 [k d] Hi1. cbn [sim]. auto.
+  - destruct Hok. apply sim_bind; [apply sim_get_unallocated; auto|].
+    intros r1 old Hi1. cbn [sim]. auto.
+  - apply sim_bind; [apply sim_write_unallocated; auto|].
+    intros r1 n Hi1. cbn [sim]. auto.
+  - (* enqueue_unallocated *)
+    pose proof (sim_enqueue_unallocated' Hok (view_rep Hi)) as H. rewrite <- view_eta in H.
+    destruct (ring_enqueue_unallocated r n) as [r1|e|]; cbn [obind sim].
+    + destruct H as (Hi1 & ->). cbn [obind]. auto.
+    + contradiction.
+    + rewrite H. reflexivity.
+  - (* get_allocated *)
+    destruct Hok. rewrite sim_get_allocated by auto.
+    destruct (qs_get_allocated (ring_view r) off size); cbn [obind sim]; auto.
+  - destruct Hok. rewrite sim_read_allocated by auto.
+    destruct (qs_read_allocated (ring_view r) off n) as [[k d]| |]; cbn [obind sim]; auto.
+  - pose proof (sim_dequeue_allocated' Hok (view_rep Hi)) as H. rewrite <- view_eta in H.
+    destruct (ring_dequeue_allocated r n) as [r1|e|]; cbn [obind sim].
+    + destruct H as (Hi1 & ->). cbn [obind]. auto.
+    + contradiction.
+    + rewrite H. reflexivity.
+  - destruct (sim_clear Hi) as (Hi1 & Hv). cbn [sim]. rewrite Hv. auto.
+Qed.
+
+(* every run: same observations as the list queue, invariant kept *)
+Theorem ring_run_refines : forall ops r, ring_inv r -> Forall ring_op_ok ops ->
+  ring_inv (fst (ring_run r ops)) /\
+  qs_run (ring_view r) ops = (ring_view (fst (ring_run r ops)), snd (ring_run r ops)).
+Proof.
+  induction ops as [|op ops IH]; intros r Hi Hok.
+  - cbn. auto.
+  - inversion Hok as [|? ? Hop Hops]; subst.
+    pose proof (@ring_step_refines r op Hi Hop) as Hs.
+    cbn [ring_run qs_run]. destruct (ring_step r op) as [[r1 [ns es]]|e|]; cbn [sim] in Hs.
+    + destruct Hs as (Hi1 & ->). destruct (IH r1 Hi1 Hops) as (Hi2 & Hrun).
+      rewrite Hrun. destruct (ring_run r1 ops) as [r2 outs]. cbn [fst snd] in *.
+      rewrite status_eq by auto. auto.
+    + rewrite Hs. destruct (IH r Hi Hops) as (Hi2 & Hrun).
+      rewrite Hrun. destruct (ring_run r ops) as [r2 outs]. cbn [fst snd] in *. auto.
+    + rewrite Hs. cbn [fst snd]. auto.
+Qed.
+End RefineDerived.
